@@ -126,7 +126,7 @@ func runSendBatch(s sbScript) sbResult {
 			o = s.Scr.Out[ci-1][a-1]
 		}
 		// what re-locating will meet before the next round
-		if (o == "nsr" || o == "dead") && a+1 >= 2 && a+1 <= 3 {
+		if (o == "nsr" || o == "dead" || o == "stopped") && a+1 >= 2 && a+1 <= 3 {
 			switch s.Scr.Reloc[a+1-2] {
 			case "tnf":
 				cl.MetaMode = "empty"
@@ -143,6 +143,8 @@ func runSendBatch(s sbScript) sbResult {
 			return verifsim.ExcNotServing
 		case "dead":
 			return "DROP"
+		case "stopped":
+			return verifsim.ExcStopped
 		}
 		return ""
 	}
@@ -203,7 +205,7 @@ func runSendBatch(s sbScript) sbResult {
 	sentIn := func(i, r int) bool { // call i is sent in round r according to the script
 		for q := 1; q < r; q++ {
 			o := s.Scr.Out[i-1][q-1]
-			if o != "later" && o != "nsr" && o != "dead" {
+			if o != "later" && o != "nsr" && o != "dead" && o != "stopped" {
 				return false
 			}
 		}
